@@ -2,6 +2,7 @@ import PeptVerif.Model.Proto
 import PeptVerif.Model.ProtoC10
 import PeptVerif.Model.ModDbGen
 import PeptVerif.Model.ModDbFacts
+import PeptVerif.Generated.ModDbPy
 /-! driver for C10: the resolver model over the generated vocabularies -/
 open Proto ProtoC10 ModDb Formula
 
@@ -79,6 +80,23 @@ def step (line : String) : String :=
       | some e => showEntry e
       | none => "None"
     | _, _ => "bad-op"
+  | ["gen", "pred", name, s] =>
+    -- definitions translated mechanically from mod_db.py (Generated/ModDbPy.lean)
+    match GenModDb.predFn name with
+    | some f => showBool (f T (decode s))
+    | none => "untranslated"
+  | ["gen", "strip", name, s] =>
+    match GenModDb.stripFn name with
+    | some f => encode (f T (decode s))
+    | none => "untranslated"
+  | ["gen", "branch", name, s] =>
+    match GenModDb.branchFn name with
+    | some f => (f T (decode s)).name
+    | none => "untranslated"
+  | ["hand", "branch", name, s] =>
+    if name == "massBranch" then (massBranch T (decode s)).name
+    else if name == "compBranch" then (compBranch T (decode s)).name
+    else "bad-op"
   | ["fact", what, kind] =>
     -- the boolean table checks of Props/C10Tab*.lean / C10Mass.lean evaluated entry by entry: names the offending entries
     match dbOf? kind with
